@@ -79,6 +79,9 @@ func runHands(ctx *RunCtx, rep *Report, stream int64, n int, g GenOpts, scripted
 			}
 		}
 		h := &Hand{Prop: ctx.Prop, C: c, R: r, Rep: local, Seed: ctx.Seed, CaseIdx: i, Scripted: script}
+		if i >= len(scripted) && i%16 == 5 && c.Reuse == 0 {
+			twinHands(h, r)
+		}
 		if ctx.Prop == "C06" {
 			if !playHandGuarded(ctx, h, mk(), local) {
 				return
@@ -90,6 +93,61 @@ func runHands(ctx *RunCtx, rep *Report, stream int64, n int, g GenOpts, scripted
 			local.Sample(sampleHand(h), 3)
 		}
 	})
+}
+
+// twinHands: the hand under the monitors is the second of two hands with the same table, the same
+// betting and another cut of the deck. The first one is played to its end on a game object O; the
+// second one follows the same steps on its own object until its last "next" (the one that settles it),
+// is moved onto O at that point (LoadState of its state) and finishes there. Every amount of the two
+// hands agrees at every step, so whatever O remembers of the first hand "still fits" - and must not be used.
+func twinHands(h *Hand, r *rand.Rand) {
+	first := *h.C
+	first.Noise, first.Prev, first.Reuse, first.ViaHandle = false, nil, 0, false
+	cut := 1 + r.Intn(len(first.Deck)-1)
+	first.Deck = append(append([]string{}, h.C.Deck[cut:]...), h.C.Deck[:cut]...)
+	// the first hand is the second one with everybody moved k seats on (button, stacks, styles): the same
+	// betting is legal in both, the amounts agree, the seats that paid them do not
+	k := r.Intn(first.N)
+	first.DealerIdx = (h.C.DealerIdx + k) % first.N
+	first.Banks = make([]int64, first.N)
+	first.Personas = make([]int, len(h.C.Personas))
+	for i := 0; i < first.N; i++ {
+		first.Banks[(i+k)%first.N] = h.C.Banks[i]
+		if len(h.C.Personas) == first.N {
+			first.Personas[(i+k)%first.N] = h.C.Personas[i]
+		}
+	}
+	h1 := &Hand{Prop: h.Prop, C: &first, R: r, Rep: NewReport(), Seed: h.Seed, CaseIdx: h.CaseIdx, Scripted: h.Scripted}
+	playHand(h1, BaseMon{})
+	if h1.G == nil || h1.G.GetState().Status.CurrentEvent != "GameClosed" {
+		return
+	}
+	last := -1
+	for k, t := range h1.Trace {
+		if t.Kind == "" && t.Op.Name == "next" {
+			last = k
+		}
+	}
+	if last < 0 {
+		return
+	}
+	tr := make([]TraceStep, 0, len(h1.Trace)+1)
+	for k, t := range h1.Trace {
+		if t.Kind != "" {
+			continue
+		}
+		if k == last {
+			tr = append(tr, TraceStep{Op: Op{Name: "swap", Seat: -1 - k, Amt: -int64(cut)}, Kind: "swap"}) // negative amount: "the twin, deck cut here"; seat: -1-k, everybody k seats on
+		}
+		t.Err = ""
+		tr = append(tr, t)
+	}
+	c2 := *h.C
+	c2.Noise, c2.ViaHandle = false, false
+	h.C = &c2
+	h.ReplayTrace = tr
+	h.spare = h1.G
+	h.Rep.Inc("twin_hands")
 }
 
 // An engine call that never returns cannot be observed from inside the hand. For C06 ("that step always
